@@ -2203,7 +2203,8 @@ class PyCdlib:
          The UDFDescriptorSequence object that stores parsed objects.
         """
         self._seek_to_extent(udf_extent_ad.extent_location)
-        vd_data = self._cdfp.read(udf_extent_ad.extent_length)
+        vd_data = self._read_at_most_iso(udf_extent_ad.extent_length,
+                                         self._get_iso_size())
 
         return udfmod.parse_udf_vol_descs(vd_data, udf_extent_ad.extent_location,
                                           self.logical_block_size)
@@ -2267,7 +2268,8 @@ class PyCdlib:
         if self.udf_main_descs.logical_volumes[0].integrity_sequence.extent_length > 0:
             # Parse the Logical Volume Integrity Sequence.
             self._seek_to_extent(self.udf_main_descs.logical_volumes[0].integrity_sequence.extent_location)
-            integrity_data = self._cdfp.read(self.udf_main_descs.logical_volumes[0].integrity_sequence.extent_length)
+            integrity_data = self._read_at_most_iso(self.udf_main_descs.logical_volumes[0].integrity_sequence.extent_length,
+                                                    self._get_iso_size())
 
             ulvi, ulvi_term = udfmod.parse_logical_volume_integrity(integrity_data,
                                                                     self.udf_main_descs.logical_volumes[0].integrity_sequence.extent_location,
